@@ -11,6 +11,7 @@
 #define VERIF_HARNESS_C08_COMMON_HPP
 
 #include "c07_common.hpp"
+#include "ctaxis.hpp"
 #include "nmtools/array/view/ufunc.hpp"
 #include "nmtools/array/view/ufuncs/add.hpp"
 #include "nmtools/array/view/ufuncs/divide.hpp"
@@ -25,6 +26,7 @@ namespace c08
     struct AxI {};  // run-time int
     struct AxL {};  // run-time list of int
     struct AxN {};  // None
+    struct AxC {};  // compile-time int (meta::ct_v<k>, k in -3..2 selected by the run-time value of the case file)
     struct KT {};   // keepdims = True (compile-time)
     struct KF {};   // keepdims = False (compile-time)
     struct KR {};   // keepdims = run-time bool
@@ -34,7 +36,7 @@ namespace c08
     template <typename AK>
     auto read_axis(Args& in)
     {
-        if constexpr (std::is_same_v<AK, AxI>) return (int)in.i();
+        if constexpr (std::is_same_v<AK, AxI> || std::is_same_v<AK, AxC>) return (int)in.i();
         else if constexpr (std::is_same_v<AK, AxL>) return vh::to_list<int>(in.vec());
         else return nm::None;
     }
@@ -127,14 +129,21 @@ namespace c08
         I init = rd<I>(in);
         Groups gr(in);
         auto a = oa.arr();
-        auto call = [&](auto keep) {
-            if constexpr (std::is_same_v<IK, IY>) return vf(a, axis, init, keep);
-            else return vf(a, axis, nm::None, keep);
-        };
         using F = post_result_t<R, POST>;
-        if constexpr (std::is_same_v<KK, KT>) { auto v = call(nm::True); emit_any<F>(out, v); }
-        else if constexpr (std::is_same_v<KK, KF>) { auto v = call(nm::False); emit_any<F>(out, v); }
-        else { auto v = call(kd); emit_any<F>(out, v); }
+        auto body = [&](const auto& axis_) {
+            auto call = [&](auto keep) {
+                if constexpr (std::is_same_v<IK, IY>) return vf(a, axis_, init, keep);
+                else return vf(a, axis_, nm::None, keep);
+            };
+            if constexpr (std::is_same_v<KK, KT>) { auto v = call(nm::True); emit_any<F>(out, v); }
+            else if constexpr (std::is_same_v<KK, KF>) { auto v = call(nm::False); emit_any<F>(out, v); }
+            else { auto v = call(kd); emit_any<F>(out, v); }
+        };
+        if constexpr (std::is_same_v<AK, AxC>) {
+            if (!vh::with_ct<-3, 2>(axis, body)) { out.tok("ERR axis"); return; }
+        } else {
+            body(axis);
+        }
         emit_folds<R>(out, gr, oa.data, op, std::is_same_v<IK, IY>, init, post);
     }
 
@@ -148,6 +157,18 @@ namespace c08
         auto a = oa.arr();
         auto v = vf(a, axis);
         emit_any<R>(out, v);
+        emit_folds<R>(out, gr, oa.data, op, false, 0, post_id{});
+    }
+
+    // the same with a compile-time axis
+    template <typename T, typename R, typename VF, typename OP>
+    void accumulate_case_ct(Args& in, Out& out, VF vf, OP op)
+    {
+        Operand<T> oa(in, 'A');
+        int axis = (int)in.i();
+        Groups gr(in);
+        auto a = oa.arr();
+        if (!vh::with_ct<-3, 2>(axis, [&](auto ax) { auto v = vf(a, ax); emit_any<R>(out, v); })) { out.tok("ERR axis"); return; }
         emit_folds<R>(out, gr, oa.data, op, false, 0, post_id{});
     }
 
